@@ -456,23 +456,30 @@ def program_equivalence(prog1, prog2, compare_params=True, atol=1e-6, rtol=0):
         # ``CXgate`` and ``BSgate`` are not symmetric with respect to permuting the order of the two
         # modes it acts on; i.e., the order of the wires matter
         wire_mapping = {}
+        dagger_mapping = {}
         for i, n in enumerate(G.nodes()):
-            # not a ``CXgate`` or a ``BSgate``, order of wires doesn't matter
-            wire_mapping[i] = 0
+            # the operations must act on the same wires; in general the order of the wires matters
+            wire_mapping[i] = [j.ind for j in n.reg]
+            dagger_mapping[i] = getattr(n.op, "dagger", False)
 
-            if n.op.__class__.__name__ == "CXgate":
-                # if the ``CXgate`` parameter is not 0, order matters
-                if not np.allclose(n.op.p[0], 0):
-                    wire_mapping[i] = [j.ind for j in n.reg]
+            if n.op.__class__.__name__ in ("S2gate", "CZgate", "CKgate"):
+                # symmetric with respect to permuting the two modes
+                wire_mapping[i] = sorted(wire_mapping[i])
+
+            elif n.op.__class__.__name__ == "CXgate":
+                # if the ``CXgate`` parameter is 0, order doesn't matter
+                if np.allclose(n.op.p[0], 0):
+                    wire_mapping[i] = sorted(wire_mapping[i])
 
             elif n.op.__class__.__name__ == "BSgate":
-                # if the beamsplitter is not symmetric, order matters
+                # if the beamsplitter is symmetric, order doesn't matter
                 bs_params = [j % np.pi for j in par_evaluate(n.op.p)]
-                if not np.allclose(bs_params, [np.pi / 4, np.pi / 2]):
-                    wire_mapping[i] = [j.ind for j in n.reg]
+                if np.allclose(bs_params, [np.pi / 4, np.pi / 2]):
+                    wire_mapping[i] = sorted(wire_mapping[i])
 
-        # add node attributes to store the operation wires
+        # add node attributes to store the operation wires and inverse flags
         nx.set_node_attributes(circuit[-1], wire_mapping, name="w")
+        nx.set_node_attributes(circuit[-1], dagger_mapping, name="dagger")
 
         # add node attributes to store the operation parameters
         if compare_params:
@@ -486,14 +493,22 @@ def program_equivalence(prog1, prog2, compare_params=True, atol=1e-6, rtol=0):
     def node_match(n1, n2):
         """Returns True if both nodes have the same name and
         same parameters, within a certain tolerance"""
-        name_match = n1["name"] == n2["name"]
+        name_match = n1["name"] == n2["name"] and n1["dagger"] == n2["dagger"]
         wire_match = n1["w"] == n2["w"]
 
-        if compare_params:
-            p_match = np.allclose(n1["p"], n2["p"], atol=atol, rtol=rtol)
-            return name_match and p_match and wire_match
+        if not (name_match and wire_match):
+            return False
 
-        return name_match and wire_match
+        if compare_params:
+            # compare parameter by parameter: they can be arrays of different shapes
+            if len(n1["p"]) != len(n2["p"]):
+                return False
+            return all(
+                np.shape(p1) == np.shape(p2) and np.allclose(p1, p2, atol=atol, rtol=rtol)
+                for p1, p2 in zip(n1["p"], n2["p"])
+            )
+
+        return True
 
     # check if circuits are equivalent
     return nx.is_isomorphic(circuit[0], circuit[1], node_match)
